@@ -181,6 +181,8 @@ func c17(c *Ctx) {
 		}
 		c17emit(c, en0, ops, fmt.Sprintf("rand%d", style))
 	}
+	// 3. very long lines (2^8 .. 2^20 bytes and more): size/capacity of Writer.buff (c17big.go)
+	c17big(c)
 }
 
 func init() { registry["C17"] = c17 }
